@@ -124,7 +124,11 @@ class SVRPEnv(RL4COEnvBase):
         current_node = td["action"][:, None]  # Add dimension for step
 
         # if I go back to the depot, send out next technician
-        td["current_tech"] += (current_node == 0).int()
+        # (the last technician stays the last one: with a single technician the final return to the depot would
+        # otherwise index past the technicians)
+        td["current_tech"] = (td["current_tech"] + (current_node == 0).int()).clamp(
+            max=td["techs"].size(-2) - 1
+        )
 
         # Add one dimension since we write a single value
         visited = td["visited"].scatter(-2, current_node[..., None], 1)
@@ -206,7 +210,7 @@ class SVRPEnv(RL4COEnvBase):
                 each[-1] + 1
             )  # indices in locs_ordered are shifted by one due to added depot in the front
             costs[batch, start:end] = self.tech_costs[tech]
-            tech += 1
+            tech = min(tech + 1, len(self.tech_costs) - 1)  # the last technician stays the last one
             start = end
         costs[batch, start:] = self.tech_costs[tech]
 
